@@ -426,6 +426,10 @@ func (e *Engine) tryStub(name string, fn *ssa.Function, args []Value, g *Term, p
 			return nil, true
 		case "Symbolic":
 			return TS.True, true
+		case "TimeAt":
+			return StructV{[]Value{BV(64, 0), args[0].(*Term), RefV{}}}, true
+		case "TimeNs":
+			return args[0].(StructV).f[1], true
 		case "SameObject":
 			return e.sameObject(args[0], args[1]), true
 		}
@@ -516,10 +520,64 @@ func (e *Engine) tryStub(name string, fn *ssa.Function, args []Value, g *Term, p
 		return nil, true
 	case "time.Now":
 		e.StubsUsed[name]++
-		// a Time without monotonic reading: wall = 0 (nsec 0), ext = seconds since year 1, loc = nil (UTC)
-		sec := Fresh("timenow", 64)
-		e.assume(And(Cmp(OpSLe, BV(64, 62135596800), sec), Cmp(OpSLt, sec, BV(64, 62135596800+(1<<33)))))
-		return StructV{[]Value{BV(64, 0), sec, RefV{}}}, true
+		// an arbitrary instant (ns model, see below), kept in a range where +- durations cannot wrap
+		ns := Fresh("timenow", 64)
+		e.assume(And(Cmp(OpSLe, BV(64, 0), ns), Cmp(OpSLt, ns, BV(64, 1<<61))))
+		return StructV{[]Value{BV(64, 0), ns, RefV{}}}, true
+	case "(time.Time).Sub", "(time.Time).Before", "(time.Time).After", "(time.Time).Equal", "(time.Time).Add", "(time.Time).IsZero",
+		"(time.Time).Compare", "(time.Time).UnixNano", "(time.Time).Unix", "(time.Time).UnixMilli", "(time.Time).UTC", "(time.Time).Local", "(time.Time).Round", "(time.Time).Truncate",
+		"time.Date", "time.Unix", "time.UnixMilli":
+		// Time model: Time{wall: 0, ext: nanoseconds since the Unix epoch, loc: nil}; all arithmetic on ext (int64).
+		e.StubsUsed[name]++
+		ext := func(v Value) *Term {
+			sv, ok := v.(StructV)
+			if !ok {
+				panic(unsupported("time value is not a struct"))
+			}
+			t, ok := sv.f[1].(*Term)
+			if !ok {
+				panic(unsupported("time value with poison ext"))
+			}
+			return t
+		}
+		mk := func(t *Term) Value { return StructV{[]Value{BV(64, 0), t, RefV{}}} }
+		switch name {
+		case "(time.Time).Sub":
+			return BinBV(OpSub, ext(args[0]), ext(args[1])), true
+		case "(time.Time).Before":
+			return Cmp(OpSLt, ext(args[0]), ext(args[1])), true
+		case "(time.Time).After":
+			return Cmp(OpSLt, ext(args[1]), ext(args[0])), true
+		case "(time.Time).Equal":
+			return Eq(ext(args[0]), ext(args[1])), true
+		case "(time.Time).Compare":
+			a, b := ext(args[0]), ext(args[1])
+			return Ite(Cmp(OpSLt, a, b), BV(64, ^uint64(0)), Ite(Eq(a, b), BV(64, 0), BV(64, 1))), true
+		case "(time.Time).Add":
+			return mk(BinBV(OpAdd, ext(args[0]), args[1].(*Term))), true
+		case "(time.Time).IsZero":
+			return Eq(ext(args[0]), BV(64, 0)), true
+		case "(time.Time).UnixNano":
+			return ext(args[0]), true
+		case "(time.Time).Unix":
+			return BinBV(OpSDiv, ext(args[0]), BV(64, 1000000000)), true
+		case "(time.Time).UnixMilli":
+			return BinBV(OpSDiv, ext(args[0]), BV(64, 1000000)), true
+		case "(time.Time).UTC", "(time.Time).Local":
+			return args[0], true
+		case "(time.Time).Round", "(time.Time).Truncate":
+			return args[0], true
+		case "time.Date":
+			// only the far-future sentinel dates are supported symbolically: any concrete year >= 3000 is "never"
+			if y, ok := args[0].(*Term); ok && y.IsConst() && y.SVal() >= 3000 {
+				return mk(BV(64, 1<<62)), true
+			}
+			return Poison{why: "time.Date"}, true
+		case "time.Unix":
+			return mk(BinBV(OpAdd, BinBV(OpMul, args[0].(*Term), BV(64, 1000000000)), args[1].(*Term))), true
+		case "time.UnixMilli":
+			return mk(BinBV(OpMul, args[0].(*Term), BV(64, 1000000))), true
+		}
 	case "time.Since", "time.Until":
 		e.StubsUsed[name]++
 		return Fresh("duration", 64), true
